@@ -436,7 +436,20 @@ def error_atomic(ctx, rule='C06.error-atomic'):
         if st not in CARRIERS:
             continue
         T = Trace(F, m, classify, classify_stmt=classify_stmt, relevant_fn=rel)
-        rel = T._relevant
+        if rel is None:
+            # also expand helpers that only TEST (they build an error value and mutate nothing): the "repeat of an earlier test" argument below needs to see where
+            # the earlier test sits
+            rel = set(T._relevant)
+            cg = F.callgraph()
+            rel |= {g for g in F.fns if _error_origins(g)}
+            changed = True
+            while changed:
+                changed = False
+                for g in F.fns:
+                    if g not in rel and any(h in rel for h in cg.get(g, ())):
+                        rel.add(g)
+                        changed = True
+            T = Trace(F, m, classify, classify_stmt=classify_stmt, relevant_fn=rel)
         evs = T.events('X')
         if not evs:
             continue
@@ -461,10 +474,39 @@ def error_atomic(ctx, rule='C06.error-atomic'):
             if v is None:
                 continue
             (post if n.id in after else pre).setdefault(v, set()).add(n.id)
+        # a post-mutation error site only repeats an earlier test when a path to it has already been through that test: it lies behind a node that
+        # decides a pre-mutation site of the same kind
+        pred = {}
+        for a, bs in T.succ.items():
+            for b in bs:
+                pred.setdefault(b, set()).add(a)
         rechecks = set()
         for v, ids in post.items():
-            if v in pre:
-                rechecks |= ids
+            if v not in pre:
+                continue
+            deciders = set()
+            for i in pre[v]:
+                # the nearest branching nodes in front of the site (several when match arms share the block)
+                frontier, seen_b = {i}, {i}
+                for _ in range(8):
+                    nxt = set()
+                    for cur in frontier:
+                        for q in pred.get(cur, ()):
+                            if q in seen_b:
+                                continue
+                            seen_b.add(q)
+                            if len(T.succ.get(q, ())) > 1:
+                                deciders.add(q)
+                            else:
+                                nxt.add(q)
+                    frontier = nxt
+                    if not frontier:
+                        break
+            if not deciders:
+                continue
+            # (not required on EVERY path: a cached handle skips the lookup's test, and that the cache only holds what passed the test is a run-time invariant)
+            behind = T.reach(deciders)
+            rechecks |= {i for i in ids if i in behind}
         live = T.reach(starts, avoid=rechecks)
         hit = sorted(live & errs)
         if not hit:
